@@ -78,6 +78,7 @@ pub fn run_scenario(seed: u64, i: usize, tier: Tier) -> Outcome {
                 s.nat = Some(NatSpec {
                     new_src: if port_only { scen::HOST_V4 } else { Ipv4Addr::new(100, 64, h as u8, r.range(1, 250) as u8) },
                     new_port: if port_only || r.chance(1, 2) { Some(r.range(1024, 65_000) as u16) } else { None },
+                    quote_keeps_new_src: !port_only && r.chance(1, 4),
                 });
             }
             s
@@ -123,10 +124,21 @@ pub fn run_scenario(seed: u64, i: usize, tier: Tier) -> Outcome {
     if applicable && nat_at.len() == 1 {
         let k = nat_at[0] as u8 + 1;
         o.hit("single_device_flagged_once_at_or_beyond_k");
-        for round in &run.rounds {
+        for (round, rt) in run.rounds.iter().zip(&a.rounds) {
             if let Some(s) = &round.snapshot {
                 let responded: Vec<u8> = round.probes.iter().filter_map(|p| if let trippy_core::ProbeStatus::Complete(c) = p { Some(c.ttl.0) } else { None }).collect();
                 let first_at_or_beyond = responded.iter().copied().filter(|t| *t >= k).min();
+                // the device may happen not to change the checksum at all (the same port chosen
+                // again, or an address whose one's complement sum equals the original's: one in
+                // 65536): then there is nothing to detect and this derived clause does not apply
+                let invisible = rt.reads.iter().any(|rd| {
+                    let (Some(pid), Some(wid)) = (rd.pkt, rd.wire) else { return false };
+                    Some(w.wires[wid].ttl) == first_at_or_beyond && rd.kind.is_some() && w.pkts[pid].quoted_udp_csum.is_some() && w.pkts[pid].quoted_udp_csum == w.wires[wid].udp_csum
+                });
+                if invisible {
+                    o.count("rounds_in_which_the_rewrite_left_the_checksum_unchanged", 1);
+                    continue;
+                }
                 for h in s.hops().iter().filter(|h| responded.contains(&h.ttl())) {
                     let want = Some(h.ttl()) == first_at_or_beyond;
                     if (h.last_nat_status() == NatStatus::Detected) != want {
@@ -147,7 +159,7 @@ pub fn run_scenario(seed: u64, i: usize, tier: Tier) -> Outcome {
 
 pub fn run(tier: Tier, seed: u64, only: Option<usize>) -> i32 {
     let mut rep = Report::new("C19", "exploration", tier, seed);
-    rep.rule = "scenario = (IPv4/UDP/Dublin cell x port direction x privilege x extension mode | any other cell) x path of 2..12 hops with 0..3 NAT devices at arbitrary distances (source address rewritten, with or without port rewrite; one in six worlds rewrites only the port), silent hops before/after, one privileged Dublin/IPv4 world in five without NAT whose per-round port makes the probe's UDP checksum compute to zero in one of the first rounds, packet sizes {28,29,84,300,1024}, patterns {0,0x55,0xff}; ground truth per responding hop = UDP checksum in the quotation the simulator generated vs. that of the previous responder (first responder: vs. the checksum captured at send_to); distinct by (cell, device layout, distance)".into();
+    rep.rule = "scenario = (IPv4/UDP/Dublin cell x port direction x privilege x extension mode | any other cell) x path of 2..12 hops with 0..3 NAT devices at arbitrary distances (source address rewritten, with or without port rewrite, one device in four leaving the rewritten source address in the datagrams it lets be quoted; one in six worlds rewrites only the port), silent hops before/after, one privileged Dublin/IPv4 world in five without NAT whose per-round port makes the probe's UDP checksum compute to zero in one of the first rounds, packet sizes {28,29,84,300,1024}, patterns {0,0x55,0xff}; ground truth per responding hop = UDP checksum in the quotation the simulator generated vs. that of the previous responder (first responder: vs. the checksum captured at send_to); distinct by (cell, device layout, distance)".into();
     rep.assumptions = vec![
         "a NAT device updates the UDP checksum incrementally (RFC 1624) and, on the return path, restores addresses and ports of the quoted datagram but not its checksum".into(),
         "the snapshot is taken inside the publish callback, so Hop::last_nat_status() of a hop that responded in the round is that round's status".into(),
